@@ -552,7 +552,12 @@ impl Store {
 
     pub fn append(&self, mut frame: Frame) -> Result<Frame, crate::error::Error> {
         #[cfg(xs_verif)]
-        crate::verif::point("append.enter", 0);
+        crate::verif::point_if("append.enter", 0, &|| {
+            !matches!(
+                self.append_lock.try_lock(),
+                Err(std::sync::TryLockError::WouldBlock)
+            )
+        });
         // Id assignment, commit and broadcast form one critical section: frames become
         // visible, and are sent to subscribers, in id order even with concurrent writers.
         let _append_guard = self.append_lock.lock().unwrap();
